@@ -15,8 +15,16 @@ AVOID4 = {'C06': 'Timer::Skip, CoreTiming::Skip or the idle flag handling at int
           'C15': 'Timer::Skip, Timer::GetMaxSkip or the pause test in Timer::Tick', 'C16': 'Btdmp::Skip, Btdmp::SetTransmitFlush or Btdmp::Send', 'C17': 'Timer::Reset, Ahbm::Reset or the SharedMemory constructor', 'C19': 'DataChannel::Recv, Apbp::SetSemaphore or ICU::Trigger',
           'C01': 'StepAddress, Exp or max_gt', 'C02': 'the rep/bkrep bookkeeping in Interpreter::Run, GetDecoderTable or MatcherCreator', 'C03': 'AddSub, SatAndSetAccAndFlag or alm(Register)', 'C04': 'ShiftBus40, DoMultiplication or Exp', 'C05': 'Teakra_Disasm_Do, the mma_my_my renderer or GenerateParser',
           'C08': 'banke, ContextStore or pop(Abe)', 'C09': 'RestoreBlockRepeat, the block-end test in Interpreter::Run or rep(Register)', 'C10': 'StepAddress, the epi/epj test in RnAndModify or the mma addressing', 'C18': 'RestoreBlockRepeat, ConvertDataAddress or Ahbm::Channel::GetBurstSize', 'C20': 'the arp slots, AccEProxy or the st2 slots'}
+AVOID5 = {'C02': 'the rep/bkrep bookkeeping or the second-word fetch in Interpreter::Run, GetDecoderTable or MatcherCreator', 'C05': 'Teakra_Disasm_Do, the mma_my_my renderer, DsmArRn or GenerateParser',
+          'C06': 'Timer::Skip, CoreTiming::Skip, Btdmp::Skip or the idle flag handling at interrupt entry', 'C07': 'the latch sampling or interrupt_handled in Interpreter::Run, ICU::Trigger or the st2 pseudo-register',
+          'C08': 'banke, ContextStore, pop(Abe) or push(Register)', 'C09': 'RestoreBlockRepeat, StoreBlockRepeat, the block-end test in Interpreter::Run or rep(Register)',
+          'C11': 'MemoryInterfaceUnit::InMMIO, MemoryInterface::ProgramRead/ProgramWrite, Teakra::DataWrite or movd', 'C12': 'MemoryInterfaceUnit::ToMMIO, Cell::BitFieldCell, Dma::ActivateChannel or MemoryInterface::MMIORead/MMIOWrite',
+          'C13': 'Dma::Channel::Start or the counter0 limit, destination alignment mask and dimension-2 step in Dma::Channel::Tick', 'C17': 'Timer::Reset, Ahbm::Reset, Btdmp::Reset or the SharedMemory constructor',
+          'C18': 'RestoreBlockRepeat, ConvertDataAddress, Ahbm::Channel::GetBurstSize or the arp pseudo-register slots', 'C19': 'DataChannel::Recv, DataChannel::Send, Apbp::SetSemaphore or ICU::Trigger',
+          'C14': 'Apbp::SetSemaphore, ClearSemaphore, MaskSemaphore or DataChannel::Send', 'C15': 'Timer::Skip, GetMaxSkip, TickEvent or the pause test in Timer::Tick', 'C16': 'Btdmp::Skip, SetTransmitFlush, Send or the enable test in Btdmp::Tick',
+          'C01': 'StepAddress, Exp or max_gt', 'C03': 'AddSub, SatAndSetAccAndFlag or alm(Register)', 'C04': 'ShiftBus40, DoMultiplication or Exp', 'C10': 'StepAddress, the epi/epj test in RnAndModify or the mma addressing', 'C20': 'the arp slots, AccEProxy, the st2 slots or load_stepj'}
 rnd = sys.argv[1]
-AVOID = AVOID4 if rnd == '4' else (AVOID3 if rnd == '3' else AVOID2)
+AVOID = AVOID5 if rnd == '5' else AVOID4 if rnd == '4' else (AVOID3 if rnd == '3' else AVOID2)
 ids = sys.argv[2:]
 os.makedirs('/tmp/scratch', exist_ok=True)
 for l in open('/verif/properties.jsonl'):
